@@ -173,6 +173,25 @@ def distinct_names(W, extra=()):
             "a formatted conflict suffix is not the staging suffix (the client-supplied path is assumed not to be the hub's own lock file)"]
 
 
+def make_witness(R, pid, what):
+    """counterexample confirmation for handler obligations: (1) the scenario family run natively against the sequential
+    reference semantics; (2) for ORDER goals, the real system-call order of a commit / conflict / delete observed with strace"""
+    from . import hubnative
+
+    def w(name, model, neg):
+        oid = "%s/%s" % (pid, what)
+        key = "%s/%s/%s" % (pid, what, name.split("=>")[0][:60])
+        only = {"handle_put": lambda c: c["op"] == "put", "handle_delete": lambda c: c["op"] == "delete", "handle_get": lambda c: c["op"] == "get"}.get(what)
+        r = hubnative.conformance(R, pid, oid, key, only)
+        if r["confirmed"]:
+            return r
+        o = hubnative.order_check(R, oid, key, what)
+        if o["confirmed"]:
+            return o
+        return {"confirmed": False, "detail": r["detail"] + "; " + o["detail"]}
+    return w
+
+
 def _any(fs):
     fs = list(fs)
     return z3.Or(*fs) if fs else z3.BoolVal(False)
@@ -259,7 +278,7 @@ def delete_obligations(ctx, R, prover, pid):
     prover.prove(ex, goals, "%s/handle_delete" % pid,
                  "one Delete request from an arbitrary state: any root/path names, any expected hash (absent or 32 arbitrary bytes), "
                  "any current hash, every file-system and stream operation may fail; sequential (no interleaving, no crash point)",
-                 ["handle_delete", "handle_delete::{closure#0}", "with_commit_lock", "cas_decide"], None, covers=covers)
+                 ["handle_delete", "handle_delete::{closure#0}", "with_commit_lock", "cas_decide"], make_witness(R, pid, "handle_delete"), covers=covers)
 
 
 def _opt_bytes(ex, opt):
@@ -359,6 +378,7 @@ def put_obligations(ctx, R, prover, pid, ncap=3):
             goals[name] = _all(z3.Implies(r["guard"], f(r)) for r in pub)
         _pub("rename=>source-is-the-staging-file", lambda r: r["path"] == tmp)
         _pub("rename=>every-consumed-byte-was-written", lambda r: written_total == want_consumed)
+        _pub("rename=>the-stream-delivered-exactly-the-declared-length", lambda r: want_consumed == LEN)
         _pub("rename=>the-hashed-stream-is-the-whole-consumed-content-and-its-hash-equals-the-claim", lambda r: _any(
             z3.And(h["guard"], h_stream_ok(h), h_match(h)) for h in W.finals if h["seq"] < r["seq"]))
         _pub("rename=>all-writes-succeeded-and-came-first;-staging-file-synced-before", lambda r: z3.And(
@@ -410,7 +430,7 @@ def put_obligations(ctx, R, prover, pid, ncap=3):
                  "one Put request from an arbitrary state: any names, any declared length (u64), any claimed / expected / current hash, "
                  "a content stream of 0..%d symbolic bytes delivered in arbitrary pieces (short reads), every file-system and stream "
                  "operation may fail; BLAKE3 = 32 uninterpreted functions of the content; sequential (no interleaving, no crash point)" % ncap,
-                 ["handle_put", "handle_put::{closure#0}", "with_commit_lock", "cas_decide", "tmp_of"], None, covers=covers)
+                 ["handle_put", "handle_put::{closure#0}", "with_commit_lock", "cas_decide", "tmp_of"], make_witness(R, pid, "handle_put"), covers=covers)
 
 
 def _is_conflict_name(to, dst, claimed_b):
@@ -472,7 +492,7 @@ def get_obligations(ctx, R, prover, pid):
             z3.And(_all(z3.Not(s_["guard"]) for s_ in streams), _all(z3.Implies(e["guard"], m.discr == vE) for e, m, _ in W.replies)))
     prover.prove(ex, goals, "%s/handle_get" % pid,
                  "one Get request from an arbitrary state: any names, any metadata / hash read outcome, every operation may fail; sequential",
-                 ["handle_get"], None, covers={"content-reachable": _any(z3.And(e["guard"], m.discr == vC) for e, m, _ in W.replies)})
+                 ["handle_get"], make_witness(R, pid, "handle_get"), covers={"content-reachable": _any(z3.And(e["guard"], m.discr == vC) for e, m, _ in W.replies)})
 
 
 # ----------------------------------------------------------------- wire framing (C12)
@@ -562,9 +582,51 @@ def frame_obligations(ctx, R, prover, pid="C12"):
         "truncated-frame-is-not-a-message": z3.Implies(z3.And(N >= 4, be <= MAX_FRAME, N < 4 + be), z3.Not(ok)),
         "short-prefix-is-not-a-message": z3.Implies(N < 4, z3.Not(some)),
     }
+    def rf_witness(name, model, neg):
+        from . import hubnative
+        pre = [model_int(model, x) % 256 for x in b]
+        n = model_int(model, N)
+        declared = int.from_bytes(bytes(pre), "big")
+        fam = []
+        if n < 4:
+            fam.append({"fn": "frame_read", "prefix": pre[:n], "body_len": 0})
+        for body in sorted({max(0, min(n - 4, 1 << 16)), min(declared, 1 << 16), 0}):
+            for chunk in (1 << 20, 3):
+                fam.append({"fn": "frame_read", "prefix": pre, "body_len": body, "fill": 0xf6, "chunk": chunk})
+        fam.append({"fn": "frame_roundtrip", "chunk": 1})
+        fam.append({"fn": "frame_roundtrip", "chunk": 5})
+        for case in fam:
+            res_n = {p: hubnative.run_cases([case], p)[0] for p in ("dev", "release")}
+            bad = {}
+            for p, r in res_n.items():
+                if "panic" in r or "crash" in r:
+                    bad[p] = "panic: %s" % str(r)[:160]
+                elif case["fn"] == "frame_roundtrip":
+                    if not r.get("equal"):
+                        bad[p] = "frames written by write_frame are not read back: %s" % r.get("mismatches")
+                else:
+                    wl = r.get("wire_len", 0)
+                    dec = int.from_bytes(bytes(case["prefix"][:4]), "big") if len(case["prefix"]) >= 4 else None
+                    if r.get("max_alloc", 0) > MAX_FRAME + 65536:
+                        bad[p] = "allocation request of %d bytes (> 1 MiB) for a %d-byte input" % (r["max_alloc"], wl)
+                    elif dec is not None and dec > MAX_FRAME and not r["result"].startswith("Err"):
+                        bad[p] = "oversize prefix %d accepted: %s" % (dec, r["result"][:60])
+                    elif dec is not None and dec <= MAX_FRAME and wl >= 4 + dec and r.get("consumed") != 4 + dec:
+                        bad[p] = "consumed %s bytes of a complete %d-byte frame" % (r.get("consumed"), 4 + dec)
+                    elif dec is not None and dec <= MAX_FRAME and wl < 4 + dec and r["result"].startswith("Some"):
+                        bad[p] = "a truncated frame produced a message"
+                    elif wl == 0 and r["result"] != "None":
+                        bad[p] = "empty input is %s, not None" % r["result"][:60]
+            if bad:
+                case = dict(case)
+                case["observed"] = res_n
+                return {"confirmed": True, "replay_path": R.save_replay("%s/read_frame" % pid, case), "key": "%s/read_frame/%s" % (pid, "alloc" if any("alloc" in v for v in bad.values()) else "framing"),
+                        "detail": "read_frame on prefix %s + %d body bytes: native %s" % (case.get("prefix"), case.get("body_len", 0), bad)}
+        return {"confirmed": False, "detail": "native read_frame behaves as specified on the hostile frame family behind prefix %s" % pre}
+
     prover.prove(ex, goals, "%s/read_frame" % pid,
                  "ANY wire input (length up to 2^40, all 2^32 length prefixes); the CBOR decoder is an arbitrary function of the slice it is given",
-                 ["read_frame"], None, covers={"message-reachable": some, "oversize-reachable": z3.And(z3.Not(ok), N >= 4, be > MAX_FRAME)})
+                 ["read_frame"], rf_witness, covers={"message-reachable": some, "oversize-reachable": z3.And(z3.Not(ok), N >= 4, be > MAX_FRAME)})
     # ---- read_magic
     ex = ctx.ex()
     _install_frame_models(ex)
@@ -585,7 +647,24 @@ def frame_obligations(ctx, R, prover, pid="C12"):
         "true-exactly-for-the-6-byte-prologue-COPIA1": z3.Implies(ok, z3.And(N >= 6, val == is_magic, st.frames[0]["rd"].f[1].t == 6)),
         "short-input-is-an-error": z3.Implies(N < 6, z3.Not(ok)),
     }
-    prover.prove(ex, goals, "%s/read_magic" % pid, "ANY wire input (length up to 2^40, all 2^48 prefixes)", ["read_magic"], None,
+    def rm_witness(name, model, neg):
+        from . import hubnative
+        pre = [model_int(model, z3.Select(data, i)) % 256 for i in range(6)]
+        n = min(model_int(model, N), 6)
+        fam = [{"fn": "frame_read", "what": "magic", "prefix": pre[:n] if n < 6 else pre, "body_len": 0, "chunk": c} for c in (1 << 20, 1)]
+        fam += [{"fn": "frame_read", "what": "magic", "prefix": list(b"COPIA1"), "body_len": 2, "chunk": 2}]
+        for case in fam:
+            res_n = {p: hubnative.run_cases([case], p)[0] for p in ("dev", "release")}
+            want = "Ok(true)" if bytes(case["prefix"]) == b"COPIA1" else ("Ok(false)" if len(case["prefix"]) >= 6 else "Err")
+            bad = {p: r for p, r in res_n.items() if "panic" in r or not str(r.get("result", "")).startswith(want) or (want.startswith("Ok") and r.get("consumed") != 6)}
+            if bad:
+                case = dict(case)
+                case["observed"] = res_n
+                return {"confirmed": True, "replay_path": R.save_replay("%s/read_magic" % pid, case), "key": "%s/read_magic" % pid,
+                        "detail": "read_magic(%s): native %s, expected %s" % (bytes(case["prefix"]), json.dumps(bad)[:200], want)}
+        return {"confirmed": False, "detail": "native read_magic behaves as specified"}
+
+    prover.prove(ex, goals, "%s/read_magic" % pid, "ANY wire input (length up to 2^40, all 2^48 prefixes)", ["read_magic"], rm_witness,
                  covers={"accept-reachable": z3.And(ok, val)})
     # ---- write_frame
     ex = ctx.ex()
@@ -611,4 +690,158 @@ def frame_obligations(ctx, R, prover, pid="C12"):
     else:
         goals["exactly-two-writes(prefix,payload)"] = z3.BoolVal(False)
     prover.prove(ex, goals, "%s/write_frame" % pid, "any message; the CBOR encoder yields an arbitrary byte string of any length, or an error; writer records what it is given (and may not fail)",
-                 ["write_frame"], None, covers={"ok-reachable": ok})
+                 ["write_frame"], rf_witness, covers={"ok-reachable": ok})
+
+
+# ----------------------------------------------------------------- safe_join (C11): the path guard itself, on strings
+
+SJ_ALPHABET = "a./"
+
+
+def _install_unix_path_models(ex, cap):
+    """std::path on Unix, on strings of at most `cap` chars (VSeq of chars):
+       is_absolute  = starts with '/'
+       components() = [RootDir if it starts with '/'] ++ for each non-empty '/'-separated piece:
+                      '..' -> ParentDir, '.' -> CurDir only as the very first component of a relative path (otherwise
+                      skipped), anything else -> Normal(piece)
+    (validated every run against the native std implementation through the real safe_join)"""
+    import re as _re
+    from mirsmt.stdmodels import COMPONENT, _str_of
+    SL, DOT = ord("/"), ord(".")
+    ex.enums.setdefault("Component", dict(COMPONENT))
+
+    def path_new(ex_, st, args, dest_ty, func, where):
+        return VRef("val", val=_str_of(ex_, st, args[0]))
+
+    def is_abs(ex_, st, args, dest_ty, func, where):
+        s = _str_of(ex_, st, args[0])
+        return VBool(simp(z3.And(s.len > 0, s.at(I(0)) == SL)))
+
+    def comps(ex_, st, args, dest_ty, func, where):
+        s = _str_of(ex_, st, args[0])
+        ex_.oblig("model-bound", where, "path longer than the model capacity %d" % cap, z3.And(st.guard, s.len > cap))
+        return VStruct("ComponentsU", [s, VInt(I(0), "usize"), VBool(z3.BoolVal(True))])
+
+    def nxt(ex_, st, args, dest_ty, func, where):
+        ref = args[0]
+        it = ex_.deref(st, ref)
+        s, pos, front = it.f[0], it.f[1].t, it.f[2].t
+        ch = lambda j: s.at(I(j))
+
+        def is_start(j):
+            return z3.And(j < s.len, ch(j) != SL, (z3.BoolVal(True) if j == 0 else ch(j - 1) == SL))
+
+        def piece_is(j, text):
+            n = len(text)
+            return z3.And(is_start(j), *[z3.And(j + k < s.len, ch(j + k) == ord(c)) for k, c in enumerate(text)],
+                          z3.Or(j + n == s.len, z3.And(j + n < s.len, ch(j + n) == SL)))
+        has_root = z3.And(s.len > 0, ch(0) == SL)
+        lead_dot = z3.And(z3.Not(has_root), piece_is(0, "."))
+        # next real piece at or after pos: a start that is not a '.' piece
+        start = s.len
+        for j in reversed(range(cap)):
+            start = z3.If(z3.And(j >= pos, is_start(j), z3.Not(piece_is(j, "."))), I(j), start)
+        start = simp(start)
+        end = s.len
+        for j in reversed(range(cap)):
+            end = z3.If(z3.And(j > start, j < s.len, ch(j) == SL), I(j), end)
+        end = simp(end)
+        has_piece = simp(start < s.len)
+        is_parent = z3.Or(*[z3.And(start == j, piece_is(j, "..")) for j in range(cap)]) if cap else z3.BoolVal(False)
+        first_root = z3.And(front, has_root)
+        first_cur = z3.And(front, lead_dot)
+        has = simp(z3.Or(first_root, first_cur, has_piece))
+        kind = simp(z3.If(first_root, I(COMPONENT["RootDir"]), z3.If(first_cur, I(COMPONENT["CurDir"]),
+                    z3.If(is_parent, I(COMPONENT["ParentDir"]), I(COMPONENT["Normal"])))))
+        newpos = simp(z3.If(first_root, pos, z3.If(first_cur, I(1), z3.If(has_piece, end, s.len))))
+        ex_.store_ref(st, ref, VStruct("ComponentsU", [s, VInt(newpos, "usize"), VBool(z3.BoolVal(False))]))
+        piece = VRef("val", val=VSeq(s.arr, simp(s.off + start), simp(end - start), s.elem))
+        item = VEnum("Component", kind, {COMPONENT["Prefix"]: [VOpaque("prefix")], COMPONENT["RootDir"]: [], COMPONENT["CurDir"]: [],
+                                         COMPONENT["ParentDir"]: [], COMPONENT["Normal"]: [piece]})
+        return opt_sym(has, item)
+
+    def join(ex_, st, args, dest_ty, func, where):
+        return VStruct("Joined", [fsmodels._deep(ex_, st, args[0]), _str_of(ex_, st, args[1])])
+
+    def ident(ex_, st, args, dest_ty, func, where):
+        return args[0]
+    ex.models = [(_re.compile(r"^Path::new::<str>$"), path_new, "Path::new (the same characters)"),
+                 (_re.compile(r"^Path::is_absolute$"), is_abs, "Path::is_absolute (Unix: starts with '/')"),
+                 (_re.compile(r"^Path::components$"), comps, "Path::components (Unix definition, bounded length)"),
+                 (_re.compile(r"^<Components<'_> as IntoIterator>::into_iter$"), ident, "Components::into_iter"),
+                 (_re.compile(r"^<(std::path::)?Components<'_> as Iterator>::next$"), nxt, "Components::next (Unix definition)"),
+                 (_re.compile(r"^Path::join::<"), join, "Path::join (recorded)"),
+                 ] + ex.models
+
+
+def _sj_run(ctx, ex, s_val):
+    st = State()
+    res = ex.exec_fn(ctx.fn(ex, "safe_join"), [VRef("val", val=pathv(z3.Int("ROOT"))), VRef("val", val=s_val)], st)
+    if res is None:
+        raise Inconclusive("safe_join never returns")
+    return res, st
+
+
+def safe_join_obligation(ctx, R, prover, pid, maxlen):
+    from .planlib import sym_str, lit_str
+    # ---- validation of the path models + translation on concrete strings against the native safe_join
+    import itertools
+    from . import hubnative
+    strs = [""] + ["".join(t) for n in range(1, 5) for t in itertools.product(SJ_ALPHABET, repeat=n)]
+    strs += ["a/../b", "a/./..", "./..", ".../a", "a/...", "..a/b", "a/..b", "/..", "./a/..", "a//..//b"]
+    nat = hubnative.run_cases([{"fn": "hub_step", "op": "safe_join", "path": s, "tree": {}} for s in strs], "dev")
+    dis = []
+    for s, r in zip(strs, nat):
+        ex = ctx.ex(K=len(s) + 3)
+        stdmodels.install_strings(ex, max(len(s), 1))
+        _install_unix_path_models(ex, max(len(s), 1))
+        res, st = _sj_run(ctx, ex, lit_str(s))
+        got_none = z3.is_true(simp(res.discr == 0))
+        if got_none != (r.get("result") is None):
+            dis.append((s, "model: %s native: %s" % ("None" if got_none else "Some", r.get("result"))))
+    R.validation["cases"] += len(strs)
+    R.validation["disagreements"] += len(dis)
+    R.validation["samples"] += dis[:3]
+    if dis:
+        R.add("%s/safe_join/encoding" % pid, "inconclusive", detail="translator/model validation: %d/%d concrete paths disagree with the native safe_join: %s" % (len(dis), len(strs), dis[:3]))
+        return
+    # ---- the obligation
+    ex = ctx.ex(K=maxlen + 3)
+    stdmodels.install_strings(ex, maxlen)
+    _install_unix_path_models(ex, maxlen)
+    s_val, ln, cs = sym_str(ex, "rel", maxlen, SJ_ALPHABET)
+    res, st = _sj_run(ctx, ex, s_val)
+    ex.exit_guards.append(st.guard)
+    SL, DOT = ord("/"), ord(".")
+    ch = lambda j: cs[j]
+    absolute = z3.And(ln > 0, ch(0) == SL)
+    dd = []
+    for j in range(maxlen - 1):
+        startj = z3.BoolVal(True) if j == 0 else ch(j - 1) == SL
+        endj = z3.Or(ln == j + 2, z3.And(j + 2 < ln, ch(j + 2) == SL)) if j + 2 < maxlen else (ln == j + 2)
+        dd.append(z3.And(j + 1 < ln, startj, ch(j) == DOT, ch(j + 1) == DOT, endj))
+    has_dotdot = z3.Or(*dd) if dd else z3.BoolVal(False)
+    refused = simp(res.discr == 0)
+    goals = {"refused<=>absolute-or-has-a-'..'-component": refused == z3.Or(absolute, has_dotdot)}
+    if 1 in res.pay:
+        j = fsmodels._deep(ex, st, res.pay[1][0])
+        if isinstance(j, VStruct) and j.name == "Joined":
+            goals["accepted=>the-result-is-root.join(the-same-relative-path)"] = z3.Implies(
+                z3.Not(refused), z3.And(j.f[0].f[0].t == z3.Int("ROOT"), j.f[1].len == ln, *[z3.Implies(k < ln, j.f[1].at(I(k)) == cs[k]) for k in range(maxlen)]))
+        else:
+            goals["accepted=>the-result-is-root.join(the-same-relative-path)"] = z3.BoolVal(False)
+
+    def witness(name, model, neg):
+        n = model_int(model, ln)
+        s = "".join(chr(model_int(model, c)) for c in cs[:n])
+        res_n = {p: hubnative.run_cases([{"fn": "hub_step", "op": "safe_join", "path": s, "tree": {}}], p)[0] for p in ("dev", "release")}
+        want_refused = hubnative.refused(s)
+        bad = {p: r for p, r in res_n.items() if "panic" in r or (r.get("result") is None) != want_refused or (r.get("result") is not None and r["result"] != "/srv/hub/" + s and s != "")}
+        if bad:
+            case = {"fn": "hub_step", "op": "safe_join", "path": s, "tree": {}, "observed": res_n, "expected_refused": want_refused}
+            return {"confirmed": True, "replay_path": R.save_replay("%s/safe_join" % pid, case), "key": "%s/safe_join/%s" % (pid, "accepts-escape" if want_refused else "refuses-valid"),
+                    "detail": "safe_join('/srv/hub', %r): native %s, the property says %s" % (s, json.dumps(bad)[:200], "refused" if want_refused else "accepted")}
+        return {"confirmed": False, "detail": "native safe_join(%r) behaves as specified" % s}
+    prover.prove(ex, goals, "%s/safe_join" % pid,
+                 "every relative-path string of length <= %d over {a . /} (all placements of '.', '..' and '/'); loop unrolled with unwinding assertion" % maxlen,
+                 ["safe_join"], witness, covers={"accept-reachable": z3.Not(refused), "dotdot-refusal-reachable": z3.And(refused, z3.Not(absolute))})
